@@ -16,7 +16,7 @@ def build(spec, log, auto=None):
     auto = auto or {}
     nodes = [tagged_node("pre", ["x"], ["d0"], log)]
     if spec["side"]:
-        nodes.append(tagged_node("side", ["x"], ["s"], log))
+        nodes.append(tagged_node("side", [spec.get("side_dep", "x")], ["s"], log))
     for k in range(spec["n"]):
         name = f"ask{k}"
         inp = f"d{k}"
@@ -98,7 +98,7 @@ def run(tier, seed, functions):
     rng = random.Random(seed * 2293 + 14)
     for _ in range(n):
         k = rng.randint(1, 3)
-        spec = {"n": k, "multi": rng.random() < 0.3, "rename": rng.random() < 0.3, "side": rng.random() < 0.6, "depth": rng.choice([0, 0, 0, 1, 2]), "order_seed": rng.randrange(1000),
+        spec = {"n": k, "multi": rng.random() < 0.3, "rename": rng.random() < 0.3, "side": rng.random() < 0.6, "side_dep": rng.choice(["x", "d0", "d0"]), "depth": rng.choice([0, 0, 0, 1, 2]), "order_seed": rng.randrange(1000),
                 "answers": [rng.choice(ANSWERS) for _ in range(k)]}
         check_spec(spec, res)
     return res
